@@ -221,6 +221,19 @@ def run_history(hist):
                 loop.create_task(sps.send(SetPowerResult(succeeded={9} if a == "ok" else set(),
                                                          failed={9} if a == "fail" else set())))
                 loop.settle()
+            elif k == "X":
+                # same-instant race: move the clock exactly onto the next data timer WITHOUT letting the loop
+                # run, deliver the message, then run: the tracker sees timer and message in the same instant
+                nt = loop.next_timer()
+                dt = 0.0 if nt is None else max(0.0, nt - loop.time())
+                loop.set_time(loop.time() + dt)
+                which, kind = a
+                api.push(batmsg(9, kind, loop.wall_now()) if which == "B" else invmsg(8, kind, loop.wall_now()))
+                loop.settle()
+                ref.ev(("W", dt))
+                ref.ev((which, kind))
+                check_safety(e)
+                continue
             else:
                 loop.advance(a)
             drain()
@@ -268,6 +281,8 @@ def check_history(hist):
     v = []
     for s in safety:
         v.append(("reported_usable_only_while_data_proves_healthy", s))
+    if any(e[0] == "X" for e in hist):
+        return got, v  # same-instant races: only the safety clause is required
     if got != exp:
         v.append(("notification_sequence_matches_reference", {"got": got, "expected": exp}))
     # notifications only on change
@@ -472,6 +487,10 @@ def run(tier: str, seed: int, workers: int):
             shards.append(("tracker", tier, healthy + [e1, e2], 2))  # healthy start, depth 4
         for e1 in ev:
             shards.append(("tracker", tier, [e1], 2))  # cold start, depth 3
+        # a message landing at exactly the instant a data timer fires (safety clause only)
+        for xk in [("B", "ok"), ("B", "critical"), ("I", "ok"), ("I", "bad-state")]:
+            for w in (1.0, 4.0):
+                shards.append(("tracker", tier, healthy + [("W", w), ("X", xk)], 2))
         for e1, e2 in itertools.product([("R", "fail")], ev):
             shards.append(("tracker", tier, healthy + [e1, e2], 2))  # after a failure, depth 4
         pool_depth = 3
